@@ -34,7 +34,9 @@
 EXTENDS Bytecode, Json, IOUtils
 
 CONSTANT NChunks
-Recs == ndJsonDeserialize(IOEnv.TRACE)
+\* parsed once at start-up into a TLC register (TLC re-evaluates a definition that reads a file on every reference)
+ASSUME TLCSet(7, ndJsonDeserialize(IOEnv.TRACE))
+Recs == TLCGet(7)
 
 OpConstant == 0  OpPop == 1  OpJump == 15  OpJumpIfFalse == 16  OpJumpIfFalseNoPop == 17
 OpArray == 22  OpMap == 23  OpCall == 26  OpReturnValue == 27  OpReturn == 28  OpClosure == 34
